@@ -71,6 +71,22 @@ func InOwner(owner *ssa.Function, f func()) {
 	f()
 }
 
+// ctxSite: while set, a helper called at this site is read as executing at this site only (its
+// entry facts are the facts at the site, not what all its call sites have in common).
+var ctxSite ssa.CallInstruction
+
+// AtSite runs f with the helper invoked at site read in that site's context.
+func AtSite(site ssa.CallInstruction, f func()) {
+	if site == nil {
+		f()
+		return
+	}
+	old := ctxSite
+	ctxSite = site
+	defer func() { ctxSite = old }()
+	f()
+}
+
 // helpersCalledFrom lists the transparent helpers called (transitively, by direct calls) from the
 // body of fn itself, not from its closures.
 func helpersCalledFrom(fn *ssa.Function) []*ssa.Function {
